@@ -212,6 +212,11 @@ pub fn configs(thorough: bool) -> Vec<Cfg> {
                             for fdt_e in [1424u16, 512] {
                                 for with_empty in [false, true] {
                                     for (count, interleave) in [(1u32, 1u8), (2, 1), (1, 2), (2, 3)] {
+                                        // objects inheriting the session OTI: in both tiers for every (scheme, nobj, signalling, carousel kind,
+                                        // publish mode) - not thinned by the quick filter below
+                                        if cenc == 0 && count == 1 && interleave == 1 && !with_empty && fdt_e == 1424 {
+                                            v.push(Cfg { scheme, nobj, inband, cenc, interval, full_fdt, fdt_e, with_empty, count, interleave, fdt_cenc: 0, split_sig: false, inherit: true, sess_var: 0, small_cache: false, stream: false });
+                                        }
                                         if !thorough {
                                             let k = nobj + inband as usize + (cenc != 0) as usize + interval as usize + full_fdt as usize + (fdt_e == 512) as usize + with_empty as usize + scheme as usize + count as usize + interleave as usize;
                                             if k % 5 != 0 {
@@ -232,9 +237,6 @@ pub fn configs(thorough: bool) -> Vec<Cfg> {
                                         }
                                         if cenc == 0 && count == 1 && interleave == 1 && !with_empty && fdt_e == 1424 && scheme != Scheme::Raptor {
                                             v.push(Cfg { scheme, nobj, inband, cenc, interval, full_fdt, fdt_e, with_empty, count, interleave, fdt_cenc: 0, split_sig: false, inherit: false, sess_var: 0, small_cache: true, stream: false });
-                                        }
-                                        if cenc == 0 && count == 1 && interleave == 1 && !with_empty && fdt_e == 1424 {
-                                            v.push(Cfg { scheme, nobj, inband, cenc, interval, full_fdt, fdt_e, with_empty, count, interleave, fdt_cenc: 0, split_sig: false, inherit: true, sess_var: 0, small_cache: false, stream: false });
                                         }
                                         if cenc != 0 && count == 1 && interleave == 1 {
                                             v.push(Cfg { scheme, nobj, inband, cenc, interval, full_fdt, fdt_e, with_empty, count, interleave, fdt_cenc: 0, split_sig: true, inherit: false, sess_var: 0, small_cache: false, stream: false });
